@@ -32,6 +32,7 @@ package verifspec
 //@ func compiler/internal/dce.Selector.Include
 //@ property C05
 //@   requires s != nil
+//@   assigns s.byFilter, s.pendingDecls
 //@   ensures (asptr(dceOf(key(decl)), "compiler/internal/dce.Info").alive || (len(asptr(dceOf(key(decl)), "compiler/internal/dce.Info").objectFilter) == 0 && len(asptr(dceOf(key(decl)), "compiler/internal/dce.Info").methodFilter) == 0) || implementsLink) ==> len(s.pendingDecls) == len(old(s.pendingDecls)) + 1 && s.pendingDecls[len(s.pendingDecls) - 1] == decl
 //@   ensures len(s.pendingDecls) >= len(old(s.pendingDecls)) && forall(k, 0, len(old(s.pendingDecls)), s.pendingDecls[k] == old(s.pendingDecls)[k])
 
@@ -52,6 +53,7 @@ package verifspec
 //@ func compiler/internal/dce.Selector.AliveDecls
 //@ property C05
 //@   requires s != nil
+//@   assigns s.pendingDecls, s.byFilter, heap(declInfo.objectFilter), heap(declInfo.methodFilter)
 // representation invariant of the index: no nil entries
 //@   requires all(f, forall(i, 0, len(s.byFilter[f]), s.byFilter[f][i] != nil))
 //@   ghost b = len(s.pendingDecls)
